@@ -3,6 +3,7 @@
   (`PydapModel/DmrSpec.lean`), by induction over the spec tree.
 -/
 import PydapModel.DmrSpec
+import Proofs.DmrQuote
 import Proofs.Dmr
 namespace Pydap.Dmr
 
@@ -10,28 +11,6 @@ theorem pathStr_append (p : List Str) (n : Str) : pathStr (p ++ [n]) = pathStr p
   induction p with
   | nil => simp [pathStr]
   | cons a p ih => simp [pathStr, ih]
-
-theorem quoteChar_plain (c : Char) (h : plainChar c = true) : quoteChar c = [c] := by
-  unfold plainChar at h
-  unfold quoteChar
-  have : (c.isAlphanum || decide (c = '_') || decide (c = '-') || decide (c = '~') || decide (c = '%') || decide (c = '!') || decide (c = '*') || decide (c = '\'') || decide (c = '"') || decide (c = '/')) = true := by
-    simp only [Bool.or_eq_true] at h ⊢
-    rcases h with (h | h) | h <;> simp [h]
-  rw [if_pos this]
-
-theorem quoteName_plain (n : Str) (h : ∀ c ∈ n, plainChar c = true) : quoteName n = n := by
-  unfold quoteName
-  induction n with
-  | nil => rfl
-  | cons c cs ih =>
-    simp only [List.flatMap_cons]
-    rw [quoteChar_plain c (h c (by simp)), ih (fun x hx => h x (by simp [hx]))]
-    rfl
-
-theorem plain_no_slash (n : Str) (h : ∀ c ∈ n, plainChar c = true) : '/' ∉ n := by
-  intro hm
-  have := h '/' hm
-  revert this; decide
 
 theorem gvl_nil_of (l : List XNode) (ptag pfx : Str)
     (h : ∀ n ∈ l, n.tag ∉ varTags ∧ ∀ p, getVariables n p = []) : getVariablesList l ptag pfx = [] := by
@@ -139,9 +118,9 @@ theorem gv_items (s : Spec) : ∀ (path : List Str), s.ok →
     intro path hs
     rw [renderItems, gvl_cons, specVars]
     have : (XNode.mk "Group".toList [("name".toList, n)] none (renderItems body)).tag ∉ varTags := group_tag
-    rw [if_neg this, ihr path hs.2.2, gv_group, quoteName_plain n hs.1.2, ← pathStr_append]
-    have hpt : parentTag (path ++ [n]) = "Group".toList := by simp [parentTag]
-    have := ihb (path ++ [n]) hs.2.1
+    rw [if_neg this, ihr path hs.2.2, gv_group, ← pathStr_append]
+    have hpt : parentTag (path ++ [quoteName n]) = "Group".toList := by simp [parentTag]
+    have := ihb (path ++ [quoteName n]) hs.2.1
     rw [hpt] at this
     rw [this]; simp
 
@@ -562,7 +541,7 @@ theorem var_shape (nd : List (Str × Int)) (v : SVar)
 
 theorem varTags_numpy : ∀ t ∈ varTags, (dap4ToNumpy t).isSome = true := by decide
 
-theorem plainName_noSlash {n : Str} (h : plainName n) : '/' ∉ n := plain_no_slash n h.2
+theorem segName_noSlash {n : Str} (h : segName n) : '/' ∉ n := h.2
 
 theorem contains_false_of_not_mem (l : Str) (h : '/' ∉ l) : l.contains '/' = false := by
   cases hc : l.contains '/' with
@@ -576,12 +555,12 @@ theorem filter_noSlash (l : Str) (h : '/' ∉ l) : l.filter (· != '/') = l := b
   simpa using this
 
 /-- `_dim_key` of a fully qualified name is the name `get_named_dimensions` files the declaration under -/
-theorem dimKey_fqn (path : List Str) (n : Str) (hp : ∀ q ∈ path, plainName q) (hn : plainName n) :
+theorem dimKey_fqn (path : List Str) (n : Str) (hp : ∀ q ∈ path, segName q) (hn : segName n) :
     dimKey (fqn path n) = keyOf path n := by
   unfold dimKey keyOf fqn noSlashAfterFirst
   cases path with
   | nil =>
-    have hs := plainName_noSlash hn
+    have hs := segName_noSlash hn
     simp only [List.nil_append, pathStr, List.append_nil, List.drop_succ_cons, List.drop_zero]
     rw [contains_false_of_not_mem n hs]
     simp only [Bool.not_false, if_true, List.filter_cons]
@@ -595,12 +574,12 @@ theorem dimKey_fqn (path : List Str) (n : Str) (hp : ∀ q ∈ path, plainName q
     simp [keyOf]
 
 /-- the `Dims` fix-up of `dmr_to_dataset` gives back the fully qualified reference -/
-theorem fqdim_fix (groups : Bool) (path : List Str) (n : Str) (hp : ∀ q ∈ path, plainName q) (hn : plainName n)
+theorem fqdim_fix (groups : Bool) (path : List Str) (n : Str) (hp : ∀ q ∈ path, segName q) (hn : segName n)
     (hg : path ≠ [] → groups = true) :
     (if (splitParts groups (keyOf path n)).length = 1 then '/' :: keyOf path n else keyOf path n) = fqn path n := by
   cases path with
   | nil =>
-    have hs := plainName_noSlash hn
+    have hs := segName_noSlash hn
     have : (splitParts groups (keyOf [] n)).length = 1 := by
       unfold splitParts keyOf
       cases groups
@@ -614,8 +593,8 @@ theorem fqdim_fix (groups : Bool) (path : List Str) (n : Str) (hp : ∀ q ∈ pa
     have hall : ∀ q ∈ (g :: gs) ++ [n], '/' ∉ q := by
       intro q hq
       rcases List.mem_append.mp hq with h | h
-      · exact plainName_noSlash (hp q h)
-      · simp at h; subst h; exact plainName_noSlash hn
+      · exact segName_noSlash (hp q h)
+      · simp at h; subst h; exact segName_noSlash hn
     have : (splitParts true (keyOf (g :: gs) n)).length ≠ 1 := by
       simp only [splitParts, keyOf, fqn, if_true]
       rw [if_neg (by simp), split_pathStr _ (by simp) hall]
@@ -624,14 +603,14 @@ theorem fqdim_fix (groups : Bool) (path : List Str) (n : Str) (hp : ∀ q ∈ pa
     simp [keyOf]
 
 /-- name/path split of a variable key -/
-theorem key_split (groups : Bool) (path : List Str) (n : Str) (hp : ∀ q ∈ path, plainName q) (hn : plainName n)
+theorem key_split (groups : Bool) (path : List Str) (n : Str) (hp : ∀ q ∈ path, segName q) (hn : segName n)
     (hg : path ≠ [] → groups = true) :
     (let parts := splitParts groups (keyOf path n)
      if parts.length > 1 then (parts.getLast?.getD [], some (joinSlash parts.dropLast)) else (keyOf path n, none))
       = (n, if path = [] then none else some (pathStr path)) := by
   cases path with
   | nil =>
-    have hs := plainName_noSlash hn
+    have hs := segName_noSlash hn
     have : (splitParts groups (keyOf [] n)).length = 1 := by
       unfold splitParts keyOf
       cases groups
@@ -645,8 +624,8 @@ theorem key_split (groups : Bool) (path : List Str) (n : Str) (hp : ∀ q ∈ pa
     have hall : ∀ q ∈ (g :: gs) ++ [n], '/' ∉ q := by
       intro q hq
       rcases List.mem_append.mp hq with h | h
-      · exact plainName_noSlash (hp q h)
-      · simp at h; subst h; exact plainName_noSlash hn
+      · exact segName_noSlash (hp q h)
+      · simp at h; subst h; exact segName_noSlash hn
     have hsp : splitParts true (keyOf (g :: gs) n) = [] :: ((g :: gs) ++ [n]) := by
       simp only [splitParts, keyOf, fqn, if_true]
       rw [if_neg (by simp), split_pathStr _ (by simp) hall]
@@ -675,7 +654,7 @@ theorem names_refs (groups : Bool) (ds : List SDim)
     | anon n => simpa [SDim.names, SDim.refs] using ih'
 
 theorem mkRecord_render (groups : Bool) (nd : List (Str × Int)) (path : List Str) (v : SVar) (ptag : Str)
-    (hv : v.ok) (hp : ∀ q ∈ path, plainName q) (hg : path ≠ [] → groups = true)
+    (hv : v.ok) (hp : ∀ q ∈ path, segName q) (hg : path ≠ [] → groups = true)
     (hd : ∀ fq sz, SDim.named fq sz ∈ v.dims → dictGet nd (dimKey fq) = some sz ∧
       (if (splitParts groups (dimKey fq)).length = 1 then '/' :: dimKey fq else dimKey fq) = fq) :
     mkRecord groups nd (keyOf path v.name) ⟨renderVar v, ptag⟩ = .ok (expectVar path v) := by
@@ -691,7 +670,7 @@ theorem mkRecord_render (groups : Bool) (nd : List (Str × Int)) (path : List St
   | none => rw [hdt] at hsome; cases hsome
   | some dt =>
     simp only [bind, Except.bind, pure, Except.pure]
-    have hks := key_split groups path v.name hp hname hg
+    have hks := key_split groups path v.name hp (goodName_seg hname) hg
     simp only [] at hks
     rw [hks, names_refs groups v.dims (fun fq sz hm => (hd fq sz hm).2)]
     rw [dictOfLog_nodup _ (by simpa [List.map_map, Function.comp_def] using hnd)]
@@ -965,8 +944,8 @@ theorem rootAttrs_ok (pre : List (Str × Str)) (name : Str) (s : Spec) (h : s.ok
       rw [this]; exact ⟨_, container_getAttributes _ _ _ body hb⟩
   · exact ⟨_, rfl⟩
 
-theorem specVars_mem (s : Spec) (h : s.ok) : ∀ (path : List Str), (∀ q ∈ path, plainName q) →
-    ∀ pv ∈ specVars path s, (∀ q ∈ pv.1, plainName q) ∧ pv.2.ok ∧ (pv.1 = path ∨ (hasGroup s = true ∧ pv.1 ≠ [])) := by
+theorem specVars_mem (s : Spec) (h : s.ok) : ∀ (path : List Str), (∀ q ∈ path, qseg q) →
+    ∀ pv ∈ specVars path s, (∀ q ∈ pv.1, qseg q) ∧ pv.2.ok ∧ (pv.1 = path ∨ (hasGroup s = true ∧ pv.1 ≠ [])) := by
   induction s with
   | nil => intro path _ pv hpv; cases hpv
   | dim n sz rest ih => intro path hp pv hpv; exact ih h.2 path hp pv hpv
@@ -981,12 +960,12 @@ theorem specVars_mem (s : Spec) (h : s.ok) : ∀ (path : List Str), (∀ q ∈ p
     intro path hp pv hpv
     rw [specVars] at hpv
     rcases List.mem_append.mp hpv with hb | hr
-    · have hp' : ∀ q ∈ path ++ [g], plainName q := by
+    · have hp' : ∀ q ∈ path ++ [quoteName g], qseg q := by
         intro q hq
         rcases List.mem_append.mp hq with hq | hq
         · exact hp q hq
-        · simp at hq; subst hq; exact h.1
-      obtain ⟨h1, h2, h3⟩ := ihb h.2.1 (path ++ [g]) hp' pv hb
+        · simp at hq; subst hq; exact goodName_qseg h.1
+      obtain ⟨h1, h2, h3⟩ := ihb h.2.1 (path ++ [quoteName g]) hp' pv hb
       refine ⟨h1, h2, Or.inr ⟨rfl, ?_⟩⟩
       rcases h3 with e | ⟨_, e⟩
       · rw [e]; simp
@@ -997,8 +976,8 @@ theorem specVars_mem (s : Spec) (h : s.ok) : ∀ (path : List Str), (∀ q ∈ p
       · exact Or.inl e
       · exact Or.inr ⟨rfl, e⟩
 
-theorem declDims_mem (s : Spec) (h : s.ok) : ∀ (path : List Str), (∀ q ∈ path, plainName q) →
-    ∀ d ∈ declDims path s, (∀ q ∈ d.1, plainName q) ∧ plainName d.2.1 ∧ (d.1 = path ∨ (hasGroup s = true ∧ d.1 ≠ [])) := by
+theorem declDims_mem (s : Spec) (h : s.ok) : ∀ (path : List Str), (∀ q ∈ path, segName q) →
+    ∀ d ∈ declDims path s, (∀ q ∈ d.1, segName q) ∧ segName d.2.1 ∧ (d.1 = path ∨ (hasGroup s = true ∧ d.1 ≠ [])) := by
   induction s with
   | nil => intro path _ pv hpv; cases hpv
   | var n rest ih => intro path hp pv hpv; exact ih h.2 path hp pv hpv
@@ -1013,11 +992,11 @@ theorem declDims_mem (s : Spec) (h : s.ok) : ∀ (path : List Str), (∀ q ∈ p
     intro path hp pv hpv
     rw [declDims] at hpv
     rcases List.mem_append.mp hpv with hb | hr
-    · have hp' : ∀ q ∈ path ++ [g], plainName q := by
+    · have hp' : ∀ q ∈ path ++ [g], segName q := by
         intro q hq
         rcases List.mem_append.mp hq with hq | hq
         · exact hp q hq
-        · simp at hq; subst hq; exact h.1
+        · simp at hq; subst hq; exact goodName_seg h.1
       obtain ⟨h1, h2, h3⟩ := ihb h.2.1 (path ++ [g]) hp' pv hb
       refine ⟨h1, h2, Or.inr ⟨rfl, ?_⟩⟩
       rcases h3 with e | ⟨_, e⟩
@@ -1030,7 +1009,7 @@ theorem declDims_mem (s : Spec) (h : s.ok) : ∀ (path : List Str), (∀ q ∈ p
       · exact Or.inr ⟨rfl, e⟩
 
 /-- bare root names and path-qualified names never collide -/
-theorem keyOf_inj (p p' : List Str) (n n' : Str) (hn : plainName n) (hn' : plainName n')
+theorem keyOf_inj (p p' : List Str) (n n' : Str) (hn : segName n) (hn' : segName n')
     (e : keyOf p n = keyOf p' n') : fqn p n = fqn p' n' := by
   unfold keyOf at e
   by_cases hp : p = [] <;> by_cases hp' : p' = []
@@ -1038,7 +1017,7 @@ theorem keyOf_inj (p p' : List Str) (n n' : Str) (hn : plainName n) (hn' : plain
   · subst hp
     rw [if_pos rfl, if_neg hp'] at e
     exfalso
-    apply plainName_noSlash hn
+    apply segName_noSlash hn
     rw [e]
     cases p' with
     | nil => exact absurd rfl hp'
@@ -1046,7 +1025,7 @@ theorem keyOf_inj (p p' : List Str) (n n' : Str) (hn : plainName n) (hn' : plain
   · subst hp'
     rw [if_neg hp, if_pos rfl] at e
     exfalso
-    apply plainName_noSlash hn'
+    apply segName_noSlash hn'
     rw [← e]
     cases p with
     | nil => exact absurd rfl hp
@@ -1094,13 +1073,15 @@ theorem parseVars_render (pre : List (Str × Str)) (name : Str) (s : Spec)
     cases hl : (pre ++ [("name".toList, name)]).lookup "name".toList with
     | none => rw [hl] at hlk; cases hlk
     | some g => simp only [ne_eq, not_true_eq_false, if_false]; exact gv_items s [] hok
-  have hnil : ∀ q ∈ ([] : List Str), plainName q := by intro q hq; cases hq
+  have hnil : ∀ q ∈ ([] : List Str), segName q := by intro q hq; cases hq
+  have hnilq : ∀ q ∈ ([] : List Str), qseg q := by intro q hq; cases hq
   -- distinct keys
   have hvk : (((specVars [] s).map entryOf).map (·.1)).Nodup := by
     rw [List.map_map]
     apply nodup_map_of_inj _ _ _ hv
     intro a ha b hb e
-    exact keyOf_inj _ _ _ _ (specVars_mem s hok [] hnil a ha).2.1.2.1 (specVars_mem s hok [] hnil b hb).2.1.2.1 e
+    exact keyOf_inj _ _ _ _ (goodName_seg (specVars_mem s hok [] hnilq a ha).2.1.2.1)
+      (goodName_seg (specVars_mem s hok [] hnilq b hb).2.1.2.1) e
   have hdk : (((declDims [] s).map dimEntry).map (·.1)).Nodup := by
     rw [List.map_map]
     apply nodup_map_of_inj _ _ _ hd
@@ -1111,9 +1092,9 @@ theorem parseVars_render (pre : List (Str × Str)) (name : Str) (s : Spec)
   unfold expectVars
   apply mapM_ok_map
   intro pv hpv
-  obtain ⟨hpl, hvo, hgrp⟩ := specVars_mem s hok [] hnil pv hpv
+  obtain ⟨hpl, hvo, hgrp⟩ := specVars_mem s hok [] hnilq pv hpv
   simp only [Function.comp, entryOf]
-  apply mkRecord_render _ _ _ _ _ hvo hpl
+  apply mkRecord_render _ _ _ _ _ hvo (fun q hq => (hpl q hq).1)
   · intro hne
     rcases hgrp with e | ⟨hg, _⟩
     · exact absurd e hne
